@@ -197,7 +197,7 @@ pub fn core_parts(rep: &mut Report, props: &[&str], checks: u32) {
             let base = gp_scn("core-outage", g);
             let a = base.peers[0].addr;
             let b = base.peers[1].addr;
-            for start in [2, 5] {
+            for start in [0, 2, 5] {
                 for len in 1..=max_len {
                     // quick: thin out the grid of lengths on all but the first two configs
                     if !thorough && gi >= 2 && len % 3 != 0 {
@@ -223,7 +223,7 @@ pub fn core_parts(rep: &mut Report, props: &[&str], checks: u32) {
         let cfg = ExploreCfg { k: Some(0), wall: Duration::from_secs(if thorough { 900 } else { 40 }), ..Default::default() };
         let n = scns.len();
         let out = explore(&scns, &cfg, judge);
-        rep.absorb("B: link outages between the first two peers, every length 1..=12, start 2|5, a->b | b->a | both", out, props,
+        rep.absorb("B: link outages between the first two peers, every length 1..=12, start 0|2|5, a->b | b->a | both", out, props,
             json!({"k": 0, "outage_lengths": "1..=12", "scenarios": n}));
     }
     // ---- part C: long histories with background loss, fault window across ring wraps
@@ -311,7 +311,7 @@ fn stall_parts(rep: &mut Report, props: &[&str], checks: u32, windows: &[usize],
                     let a = base.peers[0].addr;
                     let b = base.peers[1].addr;
                     let n_len = 3 * w as i32 + max_extra;
-                    let starts: Vec<i32> = if thin { vec![2, 7] } else { (2..14).collect() };
+                    let starts: Vec<i32> = if thin { vec![0, 2, 7] } else { (0..14).collect() };
                     for start in starts {
                         let mut len = 1;
                         while len <= n_len {
